@@ -296,7 +296,58 @@ class EscapeAnalysis:
                 self._follow_property(fn, node, self_cls, ltypes, depth, propagate)
             elif isinstance(node, ast.Subscript) and isinstance(node.ctx, ast.Load):
                 self._facts_subscript(fn, node, T, add)
+            elif isinstance(node, ast.Compare) and len(node.ops) == 1 and isinstance(node.ops[0], (ast.Lt, ast.LtE, ast.Gt, ast.GtE)):
+                # ordering of two datetimes raises TypeError when exactly one of them is naive: a datetime parsed from client text
+                # (parsedate_to_datetime of a date without zone / with -0000, strptime, fromisoformat) is naive or aware as the CLIENT
+                # chooses, so comparing it with a datetime the library made itself can always be made to raise
+                a_, b_ = node.left, node.comparators[0]
+                for x_, y_ in ((a_, b_), (b_, a_)):
+                    if self._client_parsed_datetime(fn, x_, T) and self._library_datetime(fn, y_):
+                        self.fact_points += 1
+                        add(node, "TypeError", "ordering comparison of a datetime parsed from client text (naive or aware as the client writes the date) with a datetime built by the library: "
+                            "can't compare offset-naive and offset-aware datetimes", "fact")
+                        break
         return frozenset(out)
+
+    def _client_parsed_datetime(self, fn: FuncInfo, e: ast.expr, T) -> bool:
+        parsers = ("email.utils.parsedate_to_datetime", "datetime.datetime.strptime", "datetime.datetime.fromisoformat")
+
+        def made(x: ast.expr, depth: int = 0) -> bool:
+            if depth > 4:
+                return False
+            if isinstance(x, ast.Call):
+                r = self.p.resolve_call(fn, x)
+                if isinstance(r, tuple) and r[0] == "ext" and r[1] in parsers:
+                    return bool(x.args) and bool(T(x.args[0]))
+                return False   # .replace(tzinfo=...) / .astimezone() normalise the awareness
+            if isinstance(x, ast.Name):
+                for n in ast.walk(fn.node):
+                    if isinstance(n, ast.Assign) and any(isinstance(t, ast.Name) and t.id == x.id for t in n.targets) and made(n.value, depth + 1):
+                        return True
+            return False
+
+        return made(e)
+
+    def _library_datetime(self, fn: FuncInfo, e: ast.expr) -> bool:
+        makers = ("datetime.datetime.fromtimestamp", "datetime.datetime.utcfromtimestamp", "datetime.datetime.now", "datetime.datetime.utcnow", "datetime.datetime")
+
+        def made(x: ast.expr, depth: int = 0) -> bool:
+            if depth > 4:
+                return False
+            if isinstance(x, ast.Call):
+                r = self.p.resolve_call(fn, x)
+                if isinstance(r, tuple) and r[0] == "ext" and r[1] in makers:
+                    return True
+                if isinstance(x.func, ast.Attribute) and x.func.attr in ("replace", "astimezone"):
+                    return made(x.func.value, depth + 1)
+                return False
+            if isinstance(x, ast.Name):
+                for n in ast.walk(fn.node):
+                    if isinstance(n, ast.Assign) and any(isinstance(t, ast.Name) and t.id == x.id for t in n.targets) and made(n.value, depth + 1):
+                        return True
+            return False
+
+        return made(e)
 
     def _cond_tainted(self, test: ast.expr, T) -> bool:
         for n in ast.walk(test):
